@@ -1498,6 +1498,10 @@ mod convert {
                     self.files[file as usize]
                 },
                 line: match self.from_row.line() {
+                    // The writer calculates line advances using `i64`.
+                    Some(line) if line.get() > i64::MAX as u64 => {
+                        return Err(ConvertError::UnsupportedLineInstruction);
+                    }
                     Some(line) => line.get(),
                     None => 0,
                 },
